@@ -54,6 +54,18 @@ CHECKS['C20'] = dict(
          'against libc each run); ASan validates the memory model on generated inputs; leading zeros admitted; 255.65535 is the '
          'invalid version.')
 
+CHECKS['C19'] = dict(
+    text='Lean 4 theorems over exact rationals, about the very definitions the driver executes (core Rat = Mathlib Q): heading in '
+         '[0,360) and congruent to 90-yaw, yaw in [-180,180) and congruent to 90-heading, mutual inverse (mod 360, exact on the '
+         'ranges), periodicity, radian = degree variant for any half-turn H>0, array = map of scalar; additionally range preservation '
+         'when every +/- is rounded by any monotone rounding exact on representables (binary64 spacing fact proved). Tied to defs.py '
+         'on every run: exact model vs double within 4 ulp modulo a turn, rounded model vs double exactly, property oracle on the '
+         'real functions.',
+    ref='4 C19', technique='Lean 4 algebraic proofs over Q (floor/trunc, linarith/ring) + exact-rational and rounded-model correspondence',
+    note='PARTIAL at the float layer: that NumPy binary64 satisfies the Rounding hypotheses (and the radian spacing fact) is not '
+         'proved; covered by boundary inputs (multiples of 45 +-1..3 ulp, tiny values, far wrap points) and bit-exact '
+         'model/implementation equality. Trusted: Lean kernel; propext, Classical.choice, Quot.sound; np.fmod = exact C fmod (tested).')
+
 NOT_APPLICABLE = []
 
 
